@@ -1129,7 +1129,7 @@ func (f *fragment) sum(filter *Row, bitDepth uint) (sum int64, count uint64, err
 	count = consider.Count()
 
 	// Determine positive & negative sets.
-	nrow := f.row(bsiSignBit)
+	nrow := consider.Intersect(f.row(bsiSignBit))
 	prow := consider.Difference(nrow)
 
 	// Compute the sum based on the bit count of each row multiplied by the
